@@ -34,6 +34,7 @@ type Config struct {
 	Workers   int
 	Start     time.Time
 	BudgetS   int // soft time budget in seconds for the whole run (0 = tier default)
+	BFSWorker string // non-empty: serve transitions of the PBFS with this name (see pbfs.go)
 }
 
 func (c *Config) Thorough() bool { return c.Tier == "thorough" }
@@ -65,6 +66,7 @@ func ParseFlags(id, level string) *Config {
 	flag.StringVar(&c.Out, "out", "", "worker mode: partial report path")
 	flag.IntVar(&c.Workers, "workers", 16, "worker processes")
 	flag.IntVar(&c.BudgetS, "budget", 0, "soft time budget in seconds")
+	flag.StringVar(&c.BFSWorker, "bfsworker", "", "internal: PBFS worker mode")
 	flag.Parse()
 	if c.Tier != "quick" && c.Tier != "thorough" {
 		c.Tier = "quick"
